@@ -59,6 +59,20 @@ def _view_args(fn, where):
     return [ast.unparse(a).replace('data_flow.', '') for a in c.args]
 
 
+def _timeout_view(fn):
+    """RegularTask._get_timeout evaluates the timeout expression either against a context view of its own or (since repo
+    commit 457c3c0e) through Task.evaluate, i.e. against the standard task view (view_expression_context)."""
+    calls = [n for n in ast.walk(fn) if isinstance(n, ast.Call) and (
+        (isinstance(n.func, ast.Name) and n.func.id == 'ContextView') or
+        (isinstance(n.func, ast.Attribute) and n.func.attr == 'ContextView'))]
+    if calls:
+        return _view_args(fn, '_get_timeout')
+    evs = [n for n in ast.walk(fn) if isinstance(n, ast.Call) and ast.unparse(n.func) == 'self.evaluate']
+    if len(evs) != 1 or evs[0].keywords or len(evs[0].args) != 1:
+        raise TranslateError('_get_timeout: neither one ContextView(...) nor one self.evaluate(<timeout>) call')
+    return ['self.evaluate(%s)' % ast.unparse(evs[0].args[0])]
+
+
 def _one(nodes, where):
     nodes = list(nodes)
     if len(nodes) != 1:
@@ -79,7 +93,7 @@ def translate(repo):
         ('view_find_next_tasks', _view_args(_func(dw, '_find_next_tasks', 'DirectWorkflowController'), '_find_next_tasks')),
         ('view_expression_context', _view_args(_func(et, 'get_expression_context', 'Task'), 'get_expression_context')),
         ('view_get_target', _view_args(_func(et, '_get_target', 'RegularTask'), '_get_target')),
-        ('view_get_timeout', _view_args(_func(et, '_get_timeout', 'RegularTask'), '_get_timeout')),
+        ('view_get_timeout', _timeout_view(_func(et, '_get_timeout', 'RegularTask'))),
     ]
     # ContextView lookup: first dictionary in the given order
     cvw = [n for n in df.body if isinstance(n, ast.ClassDef) and n.name == 'ContextView']
